@@ -349,22 +349,31 @@ func c05Repin(r *vx.Rand) {
 // the wider key pool of the merge family: eight keys, up to four regions
 var c05WidePool = [][]byte{{0x61}, {0x62}, {0x63}, {0x64}, {0x65}, {0x66}, {0x67}, {0x68}}
 
+// keys that are proper prefixes of their successors (k, k\x00, k\x00\x00, ka, kaa, kab, kb, l): the key right after k is
+// k\x00, not the next key of the same length — a scan cursor or a region boundary computed the wrong way skips or repeats them
+var c05PrefixPool = [][]byte{{0x6b}, {0x6b, 0x00}, {0x6b, 0x00, 0x00}, {0x6b, 0x61}, {0x6b, 0x61, 0x61}, {0x6b, 0x61, 0x62}, {0x6b, 0x62}, {0x6c}}
+
 // c05Merge: regions are MERGED under a reader: between two calls (stale cache entries for Get / BatchGet / the first scan
 // request) and just before a scan request (the first attempt is refused with EpochNotMatch / RegionNotFound and the retry
 // inside the same batch fetch locates the larger region), with small scan batches so that fewer pairs than the batch size
 // are left before the old boundary; both directions; a split may follow the merge.
 func c05Merge(r *vx.Rand) {
+	pool := c05WidePool
+	if r.Bool() {
+		pool = c05PrefixPool
+		rec.Count("c05:merge:prefix-keys")
+	}
 	nKeys := 4 + r.Intn(5)
-	keys := c05WidePool[:nKeys]
-	// 2–4 regions: boundaries drawn from the pool (ascending)
+	keys := pool[:nKeys]
+	// 1–4 regions: boundaries drawn from the pool (ascending)
 	var splits [][]byte
-	for _, k := range c05WidePool[1:] {
+	for _, k := range pool[1:] {
 		if len(splits) < 3 && r.Chance(35) {
 			splits = append(splits, k)
 		}
 	}
-	if len(splits) == 0 {
-		splits = [][]byte{pick(r, c05WidePool[1:nKeys])}
+	if len(splits) == 0 && r.Chance(70) {
+		splits = [][]byte{pick(r, pool[1:nKeys])}
 	}
 	stores := 1
 	if r.Chance(20) {
@@ -396,13 +405,13 @@ func c05Merge(r *vx.Rand) {
 	ok := runAll(w, scenarioTimeout, func() {
 		if r.Chance(60) {
 			// warm the region cache (and, for get / bget, the snapshot cache) with the layout before the merge
-			c05ReadOnce(snap, pick(r, c05Paths), keys, c05WidePool, r)
+			c05ReadOnce(snap, pick(r, c05Paths), keys, pool, r)
 		}
-		merges := 1 + r.Intn(2)
+		merges := r.Intn(3)
 		for i := 0; i < nOps; i++ {
 			if merges > 0 && r.Chance(50) {
 				merges--
-				k := pick(r, c05WidePool)
+				k := pick(r, pool)
 				switch r.Intn(3) {
 				case 0:
 					// between two calls
@@ -417,7 +426,7 @@ func c05Merge(r *vx.Rand) {
 					rec.Count("c05:merge:before-scan-rpc")
 				}
 				if r.Chance(20) {
-					f := hub.SplitFault(pick(r, c05WidePool[1:]))
+					f := hub.SplitFault(pick(r, pool[1:]))
 					f.Client, f.N = rd, 1+r.Intn(4)
 					g.AddFault(f)
 				}
@@ -425,9 +434,54 @@ func c05Merge(r *vx.Rand) {
 			if r.Chance(15) {
 				snap = rd.Snapshot(snapTS, 2+r.Intn(5), r.Chance(15))
 			}
-			c05ReadOnce(snap, pick(r, []string{"get", "bget", "iter", "riter", "iter", "riter"}), keys, c05WidePool, r)
+			c05ReadOnce(snap, pick(r, []string{"get", "bget", "iter", "riter", "iter", "riter"}), keys, pool, r)
 		}
 	})
+	if ok {
+		w.Quiesce(scenarioTimeout)
+	}
+}
+
+// c05BigBatchGet: ONE BatchGet of more keys than fit one request (batchGetSize = 5120), all in one region or with more than
+// that many in one of two regions; compared with Iter at the same timestamp.  A few large transactions write the keys.
+func c05BigBatchGet(twoRegions bool, r *vx.Rand) {
+	n := 5200 + r.Intn(100)
+	keys := make([][]byte, n)
+	for i := range keys {
+		keys[i] = []byte{0x67, byte(i >> 8), byte(i)}
+	}
+	var splits [][]byte
+	if twoRegions {
+		splits = [][]byte{keys[20+r.Intn(40)]}
+	}
+	w := hub.NewWorld(rec, hub.Options{Full: lean, Seed: r.U64(), Splits: splits, MaxRPCs: 4000})
+	defer w.Close()
+	wr := w.NewClient("s")
+	chunks := 2 + r.Intn(2)
+	ok := runAll(w, 3*scenarioTimeout, func() {
+		for c := 0; c < chunks; c++ {
+			wr.Begin(false, "2pc")
+			for i := c; i < n; i += chunks {
+				if i%97 != 5 { // a few keys stay without value
+					wr.Set(keys[i], []byte{0x01, byte(i)})
+				}
+			}
+			wr.Commit()
+		}
+	})
+	if !ok || !w.WaitDrained(scenarioTimeout) {
+		return
+	}
+	rd := w.NewClient("r")
+	snap := rd.Snapshot(rd.CurrentTS(), 0, false)
+	async := r.Bool()
+	ok = runAll(w, 3*scenarioTimeout, func() {
+		restore := config.UpdateGlobal(func(c *config.Config) { c.EnableAsyncBatchGet = async })
+		snap.BGet(keys, "async="+map[bool]string{false: "0", true: "1"}[async])
+		restore()
+		snap.Iter(nil, nil, 0)
+	})
+	rec.Count("c05:big-batch-get")
 	if ok {
 		w.Quiesce(scenarioTimeout)
 	}
@@ -439,6 +493,8 @@ func runC05() {
 		n = 26000
 	}
 	n = scaled(n)
+	c05BigBatchGet(false, rnd.Fork())
+	c05BigBatchGet(true, rnd.Fork())
 	for i := 0; i < n; i++ {
 		switch {
 		case i%5 == 3:
